@@ -43,6 +43,10 @@ func (ec *evalCtx) oblige(kind string, goal *Term, pos token.Pos, note string) {
 	if ec.spec {
 		return
 	}
+	if ec.fc.gen != nil {
+		// generated closures: the safety sweep would judge user expressions embedded in the template
+		return
+	}
 	ec.fc.oblige(ec.st, kind, goal, pos, note)
 }
 
@@ -941,6 +945,9 @@ func (ec *evalCtx) convertTo(v Value, from, to types.Type) Value {
 		if from == nil {
 			return v
 		}
+		if isErrorType(from) {
+			return ec.e().boxIface(ec.st, v, from)
+		}
 		if _, fromIface := from.Underlying().(*types.Interface); fromIface {
 			return v
 		}
@@ -967,6 +974,12 @@ func isErrorType(t types.Type) bool {
 
 func (e *Engine) boxIface(st *State, v Value, from types.Type) *IfaceV {
 	name := types.TypeString(from, nil)
+	if isErrorType(from) {
+		if t, ok := v.(*Term); ok {
+			// an error stored in an `any`: nil stays nil
+			return &IfaceV{Tag: Ite(Eq(t, Int(0)), Int(0), Int(e.typeTag("error"))), Id: t, Payloads: map[string]Value{}}
+		}
+	}
 	tag := e.typeTag(name)
 	id := Var(e.fresher.name("iface.id"), SInt)
 	if p, ok := v.(*PtrV); ok {
